@@ -75,24 +75,24 @@ type GenRecord struct {
 }
 
 type Group struct {
-	ID          string
-	State       GroupState
-	Generation  int32
-	Members     map[string]*Member
-	order       []string
-	Leader      string
-	Protocol    string
-	ProtoType   string
-	Coordinator int32
-	Offsets     map[string]map[int32]int64
-	rebalance   *Event
-	nextMember  int
+	ID           string
+	State        GroupState
+	Generation   int32
+	Members      map[string]*Member
+	order        []string
+	Leader       string
+	Protocol     string
+	ProtoType    string
+	Coordinator  int32
+	Offsets      map[string]map[int32]int64
+	rebalance    *Event
+	nextMember   int
 	InitialDelay time.Duration
-	Commits     []Commit
-	Gens        []*GenRecord
-	Left        []string // member ids that sent LeaveGroup
-	Evicted     []string // member ids removed by session expiry / fault
-	Heartbeats  []HB
+	Commits      []Commit
+	Gens         []*GenRecord
+	Left         []string // member ids that sent LeaveGroup
+	Evicted      []string // member ids removed by session expiry / fault
+	Heartbeats   []HB
 }
 
 // HB is one heartbeat as seen by the coordinator.
